@@ -3,6 +3,7 @@ CONSTANTS
   MinusFusion = FALSE
   ColonFusion = FALSE
   FuseAnyLiteral = FALSE
+  RawStringNames = FALSE
   DotAlways = FALSE
   Quick = TRUE
 INVARIANTS DocConsistent Ideal
